@@ -238,3 +238,34 @@ func init() {
 	extraOps["newstream"] = opNewStream
 	extraOps["api"] = opAPI
 }
+
+// cpu: the cpuid values and defaults New starts from
+func opCPU(a []string) string {
+	l1d, l2, tpc, phys := rs.VerifCPU()
+	enc, _ := rs.New(1, 1)
+	v := rs.VerifOptions(enc)
+	b := func(x bool) int {
+		if x {
+			return 1
+		}
+		return 0
+	}
+	return fmt.Sprintf("%d %d %d %d %d avx2=%d gfni=%d avxgfni=%d codegen=%d pshufb=%d", l1d, l2, tpc, phys, runtime.GOMAXPROCS(0),
+		b(v.AVX2), b(v.GFNI), b(v.AVXGFNI), b(v.CodeGen), b(v.Pshufb))
+}
+
+// opts <l1d> <l2> <tpc> <phys> <gomaxprocs> <caps> <d> <p> <optflags> : derived perRound, minSplitSize, maxGoroutines
+func opOpts(a []string) string {
+	d, p := atoi(a[6]), atoi(a[7])
+	enc, err := rs.New(d, p, optFlags(a[8])...)
+	if err != nil {
+		return "err " + errClass(err)
+	}
+	v := rs.VerifOptions(enc)
+	return fmt.Sprintf("ok %d %d %d", v.PerRound, v.MinSplitSize, v.MaxGoroutines)
+}
+
+func init() {
+	extraOps["cpu"] = opCPU
+	extraOps["opts"] = opOpts
+}
